@@ -11,6 +11,7 @@ CONSTANTS
   AllowRst = TRUE
   AllowTClose = TRUE
   AllowCRst = TRUE
+  AllowPause = TRUE
   Planned = FALSE
   Timeout = 2
   MaxNow = 12
